@@ -19,6 +19,7 @@ sys.path.insert(0, str(Path(__file__).resolve().parent))
 sys.path.insert(0, str(Path(__file__).resolve().parent.parent / 'translate'))
 import lib  # noqa
 import c16_bounds  # noqa
+import c16_loops  # noqa
 
 PID = 'C16'
 INF = None
@@ -1106,6 +1107,23 @@ def translate_bounds(ctx):
     return False, None
 
 
+def translate_loops(ctx):
+    """match the kernels against the text the model was written from and regenerate the
+    decision points of the k-NN search (coq/C16/gen/KnnCfg.v)"""
+    try:
+        cfg, consumed = c16_loops.translate(str(lib.REPO))
+        ctx.sources.update(consumed)
+        ctx.notes['knn_decision_points'] = cfg
+        lib.write_if_changed(lib.COQ / 'C16' / 'gen' / 'KnnCfg.v', c16_loops.emit(cfg))
+        return True
+    except c16_loops.TranslateError as e:
+        ctx.log('loop translator failed closed:', e)
+        ctx.notes['loop_translator_error'] = str(e)
+    except SyntaxError as e:
+        ctx.notes['loop_translator_error'] = 'syntax error: ' + str(e)
+    return False
+
+
 def validate_translation(ctx, pysrc, n=40):
     """translator validation: the Python text of each kernel is executed on integer boxes and
     points; the square of the float it returns must equal the generated Coq function"""
@@ -1185,7 +1203,9 @@ def main(ctx):
     except Exception as e:  # noqa
         ctx.notes['source_regions_error'] = str(e)
 
-    tie_ok, pysrc = translate_bounds(ctx)
+    bounds_ok, pysrc = translate_bounds(ctx)
+    loops_ok = translate_loops(ctx)
+    tie_ok = bounds_ok and loops_ok
     if tie_ok:
         proof_ok, log = ctx.build_props('C16/Props.v')
         if not proof_ok:
@@ -1207,7 +1227,7 @@ def main(ctx):
                 o['discharged'] = False
                 o['note'] = 'coqchk failed'
     valid_ok = True
-    if tie_ok:
+    if bounds_ok:
         gen_ok, _, _ = lib.coq_make(['C16/gen/Bounds.vo'])
         if gen_ok:
             try:
@@ -1257,11 +1277,14 @@ def main(ctx):
         ctx.notes['search_evaluations'] = ctx.evaluations
 
     if not tie_ok and n_bad == 0:
-        ctx.violation('tie-broken', {'translator_error': ctx.notes.get('translator_error')},
-                      'translator accepts the three box-bound kernels', 'fail-closed',
-                      'translator c16_bounds (gen/Bounds.v cannot be regenerated)', found_input=False,
-                      signature={'kind': 'tie-broken'})
-    if tie_ok and not valid_ok and n_bad == 0:
+        ctx.violation('tie-broken', {'translator_error': ctx.notes.get('translator_error'),
+                                     'loop_translator_error': ctx.notes.get('loop_translator_error')},
+                      'the kernels match the text the model was written from (bound formulas '
+                      'translated, control flow matched up to renaming and the k-NN decision points)',
+                      'fail-closed',
+                      'translators c16_bounds / c16_loops (gen/Bounds.v, gen/KnnCfg.v cannot be regenerated)',
+                      found_input=False, signature={'kind': 'tie-broken'})
+    if bounds_ok and not valid_ok and n_bad == 0:
         ctx.violation('tie-broken', {'translator_validation': ctx.notes.get('translator_validation')},
                       'generated kernels agree with the Python text they were translated from',
                       'disagree', 'translator validation (gen/Bounds.v)', found_input=False,
